@@ -1,6 +1,7 @@
 package main
 
 import (
+	"fmt"
 	"go/ast"
 	"go/token"
 	"strings"
@@ -179,6 +180,7 @@ func c13r1(c *RC) {
 
 func c13r2(c *RC) {
 	pr := c.P
+	sliceCapabilityAsserts(c, "internal/slicecache.Cacheable", "Prefixed(Cache(x)) is compiled as if it had no cache: nothing is written, and complete shard files are ignored and recomputed")
 	fn := c.MustFn("exec.(*compiler).compile")
 	if fn == nil {
 		return
@@ -405,4 +407,41 @@ func c13r5(c *RC) {
 		return false
 	}, ErrFlowOpts{SentinelOK: []string{"sliceio.EOF"}}, nil)
 	c.Floor("cache file error sites", n, 5)
+}
+
+// sliceCapabilityAsserts checks that every type assertion (or type-switch) in
+// package exec that asks a bigslice.Slice for the capability `want` looks
+// through wrapper slices (bigslice.Unwrap): Prefixed and friends return a
+// wrapper that embeds the Slice interface, which hides the methods and the
+// dynamic type of the slice underneath.
+func sliceCapabilityAsserts(c *RC, want, consequence string) {
+	pr := c.P
+	n := 0
+	for _, fn := range pr.FuncsIn("exec") {
+		if fn.Body == nil || fn.Parent != nil {
+			continue
+		}
+		ord := 0
+		ast.Inspect(fn.Body, func(nd ast.Node) bool {
+			ta, ok := nd.(*ast.TypeAssertExpr)
+			if !ok || ta.Type == nil {
+				return true
+			}
+			xt := fn.Pkg.Info.Types[ta.X]
+			tt := fn.Pkg.Info.Types[ta.Type]
+			if xt.Type == nil || tt.Type == nil || typeString(xt.Type) != "Slice" || typeString(tt.Type) != want {
+				return true
+			}
+			n++
+			ord++
+			unwrapped := false
+			if k, ok := ast.Unparen(ta.X).(*ast.CallExpr); ok && fn.Pkg.CalleeName(k) == ".Unwrap" {
+				unwrapped = true
+			}
+			c.Check(unwrapped, fmt.Sprintf("%s|%s-seen-through-wrappers#%d", fn.QName(), want, ord), pr.Pos(ta.Pos()),
+				"a Slice is asked for "+want+" without bigslice.Unwrap: a wrapper slice (Prefixed) around it hides the capability, so "+consequence)
+			return true
+		})
+	}
+	c.Floor("assertions of Slice to "+want, n, 1)
 }
